@@ -64,11 +64,12 @@ def c01_oracle(full, io, b):
         # "every '%' in it [the string form] starts an escape of two uppercase hex digits"
         if RE_PCT_OK.search(s):
             rest = s
-            if host and "%" in host:
-                # the host is stored lower-case (C16) — including the hex digits of its escapes — and an IPv6 zone id verbatim
-                m_ = re.match(r"^([^/?#]*//(?:[^/?#@]*@)?)(\[?" + re.escape(host) + r"\]?)(.*)\Z", s, re.S)
-                if m_:
-                    rest = m_.group(1) + m_.group(3)
+            # the host is stored lower-case (C16) — including the hex digits of its escapes — and an IPv6 zone id verbatim:
+            # take the host part out of the string form (located in the string itself: raw_host may not have been observed)
+            m_ = re.match(r"^([^/?#]*//(?:[^/?#]*@)?)([^/?#@]*)(.*)\Z", s, re.S)
+            if m_ and "%" in m_.group(2):
+                rest = m_.group(1) + m_.group(3)
+                host = host or m_.group(2)
             if RE_PCT_OK.search(rest):
                 out.append(fail(v, h, "str", f"str(url) = {s!r} contains a '%' that does not start an escape of two uppercase hex digits", "str-bad-escape"))
             else:
@@ -952,6 +953,14 @@ def c07_oracle(full, io, b):
             ui_, at_, hp_ = au2.rpartition("@")
             if hp_.startswith("[") and hp_.endswith("]") and ":" not in hp_:
                 alts.add(ui_ + at_ + hp_[1:-1])
+        if au2 != au:
+            ru_, rp_, rh_ = (v.get(h, x) for x in ("raw_user", "raw_password", "raw_host"))
+            if rh_ is not None and not any(x is None or x.startswith("!") for x in (ru_, rp_, rh_)):
+                u_ = None if ru_ == "~" else dec(ru_)
+                p_ = None if rp_ == "~" else dec(rp_)
+                h_ = "" if rh_ == "~" else dec(rh_)
+                hs_ = "[" + h_ + "]" if ":" in h_ else h_
+                alts.add((((u_ or "") + ":" + p_ + "@") if p_ is not None else ((u_ + "@") if u_ else "")) + hs_)      # make_netloc(user, password, host_subcomponent, None)
         pas = [pa] + ([""] if (pa == "/" and au and not qu and not fr) else [])
         for a_ in alts:
             for p_ in pas:
